@@ -5,7 +5,7 @@
    fixed-size value); C11_real_sizes instantiates them with the constants
    regenerated from /repo/p2p/protocol.go. *)
 From Coq Require Import ZArith NArith List Bool.
-From Mpc Require Import Gen.Consts Base.Codec Proto.Conn Proto.ConnProof Proto.RunC11.
+From Mpc Require Import Gen.Consts Base.Codec Proto.Conn Proto.ConnProof Proto.ConnErr Proto.ConnErrProof Proto.RunC11.
 Import ListNotations.
 From Mpc Require Gen.State Base.StateExpected Base.StateCheck Base.StatePkgs.
 
@@ -238,6 +238,184 @@ Theorem C11_sender_ring_exists :
               g_written g = wire_chunks (run_sender nbuf wcap ops).
 Proof. exact sender_ring_exists. Qed.
 Print Assumptions C11_sender_ring_exists.
+
+(* ======================= TRANSPORT FAULTS (model Proto/ConnErr.v, proofs Proto/ConnErrProof.v)
+
+   Write side, small-step system over ALL interleavings of the main thread (NewConn, Flush =
+   send + receive + read of c.writerErr, Close = Flush + close + drain + read) and the writer
+   goroutine (allocate, take, conn.Write — which may FAIL, any Write, any number of them —,
+   record the error, give the buffer back, finish), for EVERY number of buffers.
+   [e_out] = outcome of every conn.Write so far, [e_res] = what every completed flush attempt
+   returned, [e_att] = slices handed to the writer, [e_close] = result of Close's second phase. *)
+
+(* Latest detection.  A flush attempt j that returned nil is ordered after the Writes
+   0 .. j+1-nb: they have been made and none of them failed. *)
+Theorem C11_ring_err_flush_nil_means :
+  forall (nb : nat) (e : ering) (j i : nat), ereach nb e ->
+    nth_error (e_res e) j = Some false -> (i + nb <= j + 1)%nat -> nth_error (e_out e) i = Some false.
+Proof. exact ering_flush_nil_means. Qed.
+Print Assumptions C11_ring_err_flush_nil_means.
+
+(* ... the other way round: once Write i has failed, flush attempt i+nb-1 and every later
+   one return the error (with three buffers: at most two more Flushes succeed). *)
+Theorem C11_ring_err_failed_write_reported :
+  forall (nb : nat) (e : ering) (i j : nat) (b : bool), ereach nb e ->
+    nth_error (e_out e) i = Some true -> (i + nb <= j + 1)%nat -> nth_error (e_res e) j = Some b -> b = true.
+Proof. exact ering_failed_write_reported. Qed.
+Print Assumptions C11_ring_err_failed_write_reported.
+
+(* No spurious error: flush attempt j returns the error only if the Write of one of the
+   chunks 0..j has failed. *)
+Theorem C11_ring_err_no_spurious_error :
+  forall (nb : nat) (e : ering) (j : nat), ereach nb e ->
+    nth_error (e_res e) j = Some true -> exists i, (i <= j)%nat /\ nth_error (e_out e) i = Some true.
+Proof. exact ering_error_means_failed_write. Qed.
+Print Assumptions C11_ring_err_no_spurious_error.
+
+(* Sticky: after a flush attempt returned the error every later one (of Flush, of a Send*
+   that needs room, of Close) returns it. *)
+Theorem C11_ring_err_sticky :
+  forall (nb : nat) (e : ering) (j k : nat) (b : bool), ereach nb e -> (j <= k)%nat ->
+    nth_error (e_res e) j = Some true -> nth_error (e_res e) k = Some b -> b = true.
+Proof. exact ering_error_sticky. Qed.
+Print Assumptions C11_ring_err_sticky.
+
+(* Close.  When Close has come back from its second phase (its Flush returned nil, toWriter
+   closed, fromWriter drained) every slice handed to the writer has been offered to the
+   transport, and Close returned the error exactly when one of these Writes failed. *)
+Theorem C11_ring_err_close_reports :
+  forall (nb : nat) (e : ering) (r : bool), ereach nb e -> e_close e = Some r ->
+    length (e_out e) = e_att e /\ r = anyb (e_out e).
+Proof. exact ering_close_reports. Qed.
+Print Assumptions C11_ring_err_close_reports.
+
+(* The channel operations never block on a full channel — also after Flushes that returned
+   the error, where c.WriteBuf keeps aliasing a buffer the writer owns, the buffer taken from
+   fromWriter is dropped and the same slice is handed to the writer again. *)
+Theorem C11_ring_err_sends_never_block :
+  forall (nb : nat) (e : ering), ereach nb e ->
+    (e_main e = EIdle -> (e_toW e < nb)%nat) /\
+    (e_w e = XRet -> (e_fromW e < nb)%nat) /\
+    (forall k, e_w e = XAlloc k -> (k < nb)%nat -> (e_fromW e < nb)%nat).
+Proof. exact ering_sends_never_block. Qed.
+Print Assumptions C11_ring_err_sends_never_block.
+
+(* No deadlock: in every reachable state in which main is inside NewConn, Flush or Close some
+   step is enabled (main's receive, or a step of the writer; conn.Write itself is assumed to
+   return), whatever Writes failed before. *)
+Theorem C11_ring_err_no_deadlock :
+  forall (nb : nat) (e : ering), (0 < nb)%nat -> ereach nb e ->
+    e_main e <> EIdle -> e_main e <> EClosed -> exists e', estep nb e e'.
+Proof. exact ering_no_deadlock. Qed.
+Print Assumptions C11_ring_err_no_deadlock.
+
+(* "No chunk after the failed one reaches the transport" is FALSE of the code (the writer
+   goroutine records the error and goes on with the queued slices): an execution in which
+   Write 0 fails and Write 1 is made and succeeds ... *)
+Theorem C11_ring_err_no_write_after_failure_refuted :
+  exists e, ereach 3 e /\ e_out e = [true; false].
+Proof. exact ering_write_after_failed_write. Qed.
+Print Assumptions C11_ring_err_no_write_after_failure_refuted.
+
+(* ... what holds instead: as long as no flush attempt has returned the error, at most nb-1
+   slices have been handed to the writer after the chunk whose Write failed. *)
+Theorem C11_ring_err_chunks_after_failure_partial :
+  forall (nb : nat) (e : ering) (i : nat), (0 < nb)%nat -> ereach nb e ->
+    nth_error (e_out e) i = Some true -> anyb (e_res e) = false -> (e_att e <= i + nb)%nat.
+Proof. exact ering_chunks_after_failure_bounded. Qed.
+Print Assumptions C11_ring_err_chunks_after_failure_partial.
+
+(* Write side, functional model: [fl i] = None | Some n says whether the i-th conn.Write fails
+   (after accepting n bytes); [lag] fixes the schedule (flush attempt j sees the failures of the
+   Writes i with i + lag <= j; the correspondence cases run lag = numBuffers-1, which by the
+   theorems above is the latest any interleaving reports).  For all buffer sizes, fault
+   functions, schedules and scripts: *)
+
+(* without faults the model IS the sender of Conn.v and every call returns nil — all the
+   fault-free theorems above speak about the same function *)
+Theorem C11_werr_conservative :
+  forall (nbuf wcap : N) (lag : nat) (ops : list op),
+    frun nbuf wcap (fun _ => None) lag s_init ops = (run_sender nbuf wcap ops, map (fun _ => false) ops).
+Proof. exact werr_conservative. Qed.
+Print Assumptions C11_werr_conservative.
+
+(* as long as no call has returned the error, state, chunks and counters are those of the
+   fault-free sender (whatever Writes have failed unnoticed) *)
+Theorem C11_werr_until_reported :
+  forall (nbuf wcap : N) (fl : nat -> option N) (lag : nat) (ops : list op) (s : sender),
+    anyb (snd (frun nbuf wcap fl lag s ops)) = false ->
+    fst (frun nbuf wcap fl lag s ops) = fold_left (step nbuf wcap) ops s.
+Proof. exact werr_until_reported. Qed.
+Print Assumptions C11_werr_until_reported.
+
+(* once a call has returned the error and the Conn is still open, EVERY later Flush and
+   EVERY later Close returns it, whatever is called in between (any ops, any state) *)
+Theorem C11_werr_sticky :
+  forall (nbuf wcap : N) (fl : nat -> option N) (lag : nat), (0 < wcap)%N ->
+  forall (ops : list op) (s : sender) (o : op) (s1 : sender),
+    fstep nbuf wcap fl lag s o = (s1, true) -> s_closed s1 = false ->
+    Forall2 (fun o st => o = OFlush \/ o = OClose -> st = true) ops (snd (frun nbuf wcap fl lag s1 ops)).
+Proof. exact werr_sticky. Qed.
+Print Assumptions C11_werr_sticky.
+
+(* a script ending in Close all of whose calls returned nil: no Write failed and the transport
+   accepted exactly the concatenation of the encodings of the values sent *)
+Theorem C11_werr_close_nil_delivers :
+  forall (nbuf wcap : N) (fl : nat -> option N) (lag : nat) (ops : list op), (0 < wcap)%N ->
+    close_only_last (ops ++ [OClose]) ->
+    anyb (snd (frun nbuf wcap fl lag s_init (ops ++ [OClose]))) = false ->
+    let s := fst (frun nbuf wcap fl lag s_init (ops ++ [OClose])) in
+    s = run_sender nbuf wcap (ops ++ [OClose]) /\
+    wire_accepted fl s = concat (map encode (values_of (ops ++ [OClose]))) /\
+    any_fail fl (attempts s) = false.
+Proof. exact werr_close_nil_delivers. Qed.
+Print Assumptions C11_werr_close_nil_delivers.
+
+(* "no byte reaches the transport after a failed Write" is FALSE: a Write that fails once
+   leaves a hole in the stream the transport accepts (values 1, 2 sent; 2 alone arrives) while
+   all four calls return nil *)
+Theorem C11_werr_no_bytes_after_failure_refuted :
+  exists (fl : nat -> option N) (ops : list op),
+    let '(s, st) := frun 3 16 fl 2 s_init ops in
+    failing fl 0 = true /\ st = [false; false; false; false] /\
+    wire_accepted fl s = [0; 0; 0; 2]%N /\ concat (map encode (values_of ops)) = [0; 0; 0; 1; 0; 0; 0; 2]%N.
+Proof. exact werr_bytes_after_failed_write. Qed.
+Print Assumptions C11_werr_no_bytes_after_failure_refuted.
+
+(* Read side.  For every read-buffer size >= 16, every stream (ANY bytes, not only a
+   sender's), every segmentation, every point [p] after which the transport fails (None:
+   never), the error coming with the last bytes or on the following Read, and every sequence
+   of typed receives: each value returned as a success is the value the WHOLE stream carries
+   at that place (never a partially filled one); the receive that fails is the first whose
+   value is not complete before [p], and it returns the transport's error. *)
+Theorem C11_rfault_no_partial_value :
+  forall (rcap : N), (16 <= rcap)%N ->
+  forall (tys : list ty) (stream frags : list N) (eofdata : bool) (p : option N)
+         (r' : receiver) (vs : list val) (e : option rerr), Forall (ty_fits rcap) tys ->
+    recv_upto rcap tys (r_init (cut_transport p stream frags eofdata)) = (r', vs, e) ->
+    (exists rest, parse_all (firstn (length vs) tys) stream = Some (vs, rest)) /\
+    (e = None -> length vs = length tys) /\
+    (forall e', e = Some e' -> e' = EEOF /\ (length vs < length tys)%nat /\
+       exists rest', parse_all (firstn (length vs) tys) (t_stream (cut_transport p stream frags eofdata)) = Some (vs, rest') /\
+                     parse_ty (nth (length vs) tys TByte) rest' = None).
+Proof. exact rfault_no_partial_value. Qed.
+Print Assumptions C11_rfault_no_partial_value.
+
+(* ... with the sender: the stream of any script of the domain cut ANYWHERE: what the matching
+   receives return is a prefix of the values sent, all of them iff no receive failed. *)
+Theorem C11_rfault_roundtrip_prefix :
+  forall (nbuf wcap rcap : N) (ops : list op) (frags : list N) (eofdata : bool) (p : option N)
+         (r' : receiver) (vs : list val) (e : option rerr),
+    (16 <= wcap)%N -> (16 <= rcap)%N ->
+    close_only_last ops -> ends_flushed ops -> Forall op_in_domain ops ->
+    Forall (ty_fits rcap) (types_of ops) ->
+    recv_upto rcap (types_of ops)
+      (r_init (cut_transport p (wire_bytes (run_sender nbuf wcap ops)) frags eofdata)) = (r', vs, e) ->
+    vs = firstn (length vs) (values_of ops) /\
+    (e = None -> vs = values_of ops) /\
+    (forall e', e = Some e' -> e' = EEOF /\ (length vs < length (values_of ops))%nat).
+Proof. exact rfault_roundtrip_prefix. Qed.
+Print Assumptions C11_rfault_roundtrip_prefix.
 
 (* The constants of /repo/p2p/protocol.go (regenerated into Gen/Consts.v on
    every run) satisfy the size hypotheses of the theorems above. *)
